@@ -12,9 +12,9 @@ m = {
     "version": 1,
     "setup_cmd": "python3 tools/extract_tables.py && cd lean && lake build Ctrmml ctrmml_model",
     "hooks": {"guard": "CTRMML_VERIF",
-              "enable": "-DCTRMML_VERIF is passed to every harness compile (vlib/core.py CXXFLAGS); no source hook exists: private state is reached through the friend names the headers already declare",
+              "enable": "-DCTRMML_VERIF is passed to every harness compile (vlib/core.py CXXFLAGS); the only hook is an add-only friend declaration in src/platform/mdsdrv.h (MDSDRV_Data_Test); all other private state is reached through the friend names the headers already declare",
               "baseline_off_cmd": "cmake -G Ninja -S /repo -B /repo/_build >/dev/null && cmake --build /repo/_build >/dev/null && ctest --test-dir /repo/_build -j8 --timeout 900",
-              "source_commits": [], "add_only": True},
+              "source_commits": ["f88f3c9"], "add_only": True},
     "engines": [{"name": "lean-proof+correspondence", "path": "check", "kind_free_text": "Lean 4 theorems over a hand-written model (lean/Ctrmml), regenerated tables (tools/extract_tables.py), C++ correspondence harness (harness/), Lean model driver (lean/Driver), verdict protocol (vlib/core.py)", "serves_properties": []}],
     "checks": [], "not_applicable": [],
     "notes": "see DESIGN.md; known_findings.txt lists recorded and fixed defects",
